@@ -70,7 +70,7 @@ def build_harness():
     _built = True
 
 
-def xv(driver, timeout=1200, env=None, **kw):
+def xv(driver, timeout=600, env=None, **kw):
     """Runs a harness driver; returns its JSON summary."""
     build_harness()
     args = [XV, driver] + ["%s=%s" % (k, v) for k, v in kw.items()]
